@@ -309,21 +309,29 @@ def run_graders(ctx):
             for v in variables:
                 sf[v['name']] = v['range'] if v['kind'] == 'indep' else DependentSampler(formula=v['formula'])
             ans = '+'.join(names)
+            ucs = {'c0': 7.5, 'kk': -3.0} if 'kk' not in names else {'c0': 7.5}
+            override_e = rng.random() < 0.4
+            if override_e:
+                ucs['e'] = 1.5        # an author constant replacing a default one (suppress_warnings): the author's value is THE value
+                ans = ans + '+e'
             try:
-                g = FormulaGrader(answers=ans, variables=order, sample_from=sf, user_constants={'c0': 7.5, 'kk': -3.0} if 'kk' not in names else {'c0': 7.5},
+                g = FormulaGrader(answers=ans, variables=order, sample_from=sf, user_constants=ucs,
                                   samples=2, suppress_warnings=True, metric_suffixes=True)
             except Exception as exc:  # noqa
                 ctx.violation('C13:grader:dag:constructor', repr(exc), {'order': order})
                 continue
-            out = lib.call(ctx, g, None, '+'.join(reversed(names)))
+            out = lib.call(ctx, g, None, '+'.join(reversed(names)) + ('+1.5' if override_e else ''))
             ctx.ev()
-            wit = {'declaration_order': order, 'outcome': out.brief(),
+            wit = {'declaration_order': order, 'author_constant_e': 1.5 if override_e else None, 'outcome': out.brief(),
                    'variables': [{k: v[k] for k in ('name', 'kind', 'range', 'formula') if k in v} for v in variables]}
             if not out.returned or out.value['ok'] is not True:
                 ctx.violation('C13:grader:dag:verdict', 'sum of all variables not graded correct: %r' % (out.brief(),), wit)
-            consts = {'c0': 7.5, 'pi': math.pi, 'e': math.e, 'i': 1j, 'j': 1j}
+            consts = {'c0': 7.5, 'pi': math.pi, 'e': 1.5 if override_e else math.e, 'i': 1j, 'j': 1j}
             for smp_symbols, nsamp, cst, smp_list in TAP['records']:
                 if set(names) <= set(smp_symbols):
+                    for smp in smp_list:
+                        if override_e and smp.get('e') != 1.5:
+                            ctx.violation('C13:grader:dag:author_constant_replaced_by_default', 'sample has e = %r, the author set 1.5' % (smp.get('e'),), dict(wit, sample=smp))
                     ctx.count('grader_sample_lists_tapped')
                     check_samples(ctx, 'C13:grader:dag', variables, consts, smp_list, wit, 2)
             ctx.nontrivial(['gdag', wit['variables'], order])
